@@ -1170,6 +1170,10 @@ type Data struct {
 	denormOngoing bool // true if we are doing denormalizations so avoid ops on them.
 
 	sync.RWMutex // For CAS ops.  TODO: Make more specific (e.g., point locks) for efficiency.
+
+	// Serializes the read-modify-write of the block, label and tag element lists done by
+	// StoreElements, DeleteElement and MoveElement.  Readers do not take it.
+	mutateMu sync.Mutex
 }
 
 func (d *Data) Equals(d2 *Data) bool {
@@ -2283,6 +2287,11 @@ func (d *Data) StoreElements(ctx *datastore.VersionedCtx, r io.Reader, kafkaOff 
 	// d.Lock()
 	// defer d.Unlock()
 
+	// Each of these requests reads the element lists it changes and writes them back whole:
+	// two of them running together on one block, label or tag lose one request's elements.
+	d.mutateMu.Lock()
+	defer d.mutateMu.Unlock()
+
 	dvid.Infof("%d annotation elements received via POST\n", len(elems))
 
 	blockSize := d.blockSize()
@@ -2378,6 +2387,11 @@ func (d *Data) DeleteElement(ctx *datastore.VersionedCtx, pt dvid.Point3d, kafka
 	// d.Lock()
 	// defer d.Unlock()
 
+	// Each of these requests reads the element lists it changes and writes them back whole:
+	// two of them running together on one block, label or tag lose one request's elements.
+	d.mutateMu.Lock()
+	defer d.mutateMu.Unlock()
+
 	elems, err := getElements(ctx, tk)
 	if err != nil {
 		return err
@@ -2455,6 +2469,11 @@ func (d *Data) MoveElement(ctx *datastore.VersionedCtx, from, to dvid.Point3d, k
 
 	// d.Lock()
 	// defer d.Unlock()
+
+	// Each of these requests reads the element lists it changes and writes them back whole:
+	// two of them running together on one block, label or tag lose one request's elements.
+	d.mutateMu.Lock()
+	defer d.mutateMu.Unlock()
 
 	// Alter all stored versions of this annotation using a batch.
 	store, err := d.KVStore()
